@@ -296,10 +296,13 @@ PROPS = {
     "C12": dict(
         level="proof",
         search_seeds=3,
+        extra_lean_targets=["LdpcV.Props.C12Round"],
+        extra_prop_files=["LdpcV/Props/C12Round.lean"],
         trusted_base=[KERNEL + " (Mathlib real analysis)", CORR,
                       "the chain theorem is about the REAL-NUMBER semantics of lean/LdpcV/Model/Chain.lean (composition of the C15 block re-orderings and the C14 "
                       "modulators / demodulators); the implementation is observed through an injected DecoderFactory whose decoder records every LLR vector it is handed",
-                      "NOT modelled / only observed statistically: rand_distr::Normal, the ChaCha/thread RNG, independence and Gaussianity of the noise samples"],
+                      "NOT modelled / only observed statistically: rand_distr::Normal, the ChaCha/thread RNG, independence and Gaussianity of the noise samples",
+                      "C12Round: the standard model of floating-point arithmetic (FpModel hypotheses: relative error u per operation, e per exp / ln) for the noise level"],
         rule=("chain: 3 (5 thorough) encodable matrices (4x12, 6x18, 12x24, ...) x every fitting puncturing pattern of length 2,3,4,6 with one removed block (tail / middle / "
               "systematic) or none x BPSK / 8PSK x interleaver {none, +-2, +-3, +-4} that fits, at Eb/N0 = 60 dB: Ber::{n, n_cw, k, rate} compared exactly with the "
               "model (plus a bookkeeping sweep over n_cw <= 72, every pattern length <= 12 dividing it and every number of kept blocks) and up to 24 recorded LLR vectors per configuration judged: length n_cw, exact zeros exactly at the punctured positions, the signs complete to "
@@ -312,7 +315,9 @@ PROPS = {
               "errors; non-trivial = a configuration with puncturing or interleaving; distinct = distinct configuration"),
         assumptions=COMMON_ASSUME,
         partial=["noise distribution: Gaussianity and independence are statistical observations (moments up to order 4, lag-1 and Re/Im covariances within 6 s.e.), "
-                 "not established by any theorem; rand_distr::Normal and the ChaCha generator are trusted", "IEEE rounding"],
+                 "not established by any theorem; rand_distr::Normal and the ChaCha generator are trusted",
+                 "IEEE rounding: sigma(Eb/N0, rate, bits/symbol), the BPSK LLR and the 8PSK LLRs are bounded by theorems under the standard model of floating-point "
+                 "arithmetic (C12Round.sigma_rounded, C14Round); that IEEE-754 satisfies that model away from overflow / underflow is trusted"],
     ),
     "C13": dict(
         level="proof",
